@@ -54,6 +54,11 @@ def generate(chk):
     from note_seq import sequences_lib as sl, constants
     eps = _snap_eps(sl)
     chk.translit['time_to_frames.snap_eps'] = repr(eps) if eps is not None else 'NOT FOUND (no snap in the source)'
+    if eps is None:
+        # the AST reader gave up (e.g. the literal was moved into a named constant): keep the last regenerated file; the
+        # compiled model with the last value is still compared bit-exactly with the code on every request
+        chk.broken.append('translator:C18 (snap tolerance literal not found in sequence_to_pianoroll.time_to_frames)')
+        return
     txt = ('/-! GENERATED from /repo on every run by harness/c18.py — do not edit. -/\n'
            'namespace NSV.C18.Gen\n'
            'def SNAP_EPS : Rat := %s\n' % (lean_rat(eps) if eps is not None else '((-1) : Rat)')
